@@ -208,6 +208,7 @@ fn translation() {
     println!("end");
 }
 
+#[cfg(feature = "derive-internals")]
 fn macros() {
     use crate::derive_seqarray::{dna_seq, iupac_seq};
     println!("section macro");
@@ -236,6 +237,7 @@ fn macros() {
     println!("end");
 }
 
+#[cfg(feature = "derive-internals")]
 fn derive_width() {
     use crate::derive_codec::parse_width;
     println!("section width");
@@ -280,11 +282,53 @@ fn kmer_tables() {
     println!("end");
 }
 
+/// Without the derive crate's internals (their names or signatures changed), the per-character tables
+/// of the literal macros are SYNTHESISED FROM THE SPECIFICATION (a character is accepted exactly when
+/// the run-time parser accepts it, and packs to that symbol's code); the compiled macros are then
+/// validated against these tables only through the generated programs (C16).
+#[cfg(not(feature = "derive-internals"))]
+fn macros() {
+    println!("section macro");
+    fn table<A: VC>(name: &str) {
+        line(
+            name,
+            (0u8..128).map(|c| match guard(|| A::try_from_ascii(c)).flatten() {
+                Some(x) => format!(
+                    "1/{}",
+                    (0..A::BITS).map(|j| ((x.to_bits() >> j) & 1).to_string()).collect::<Vec<_>>().join("")
+                ),
+                None => "E".to_string(),
+            }),
+        );
+    }
+    table::<Dna>("macro_dna");
+    table::<Iupac>("macro_iupac");
+    println!("end");
+}
+
+/// ... and the width table is the specification itself: the least n with max < 2^n, a declared width
+/// below it being an error (the compiled derive is validated against it through the generated enum
+/// programs, C17).
+#[cfg(not(feature = "derive-internals"))]
+fn derive_width() {
+    println!("section width");
+    let minbits = |m: u16| (0u32..=8).find(|n| (m as u32) < (1u32 << n)).unwrap();
+    line("width_none", (0u16..=255).map(|m| minbits(m).to_string()));
+    for n in 0u32..=9 {
+        line(
+            &format!("width_{n}"),
+            (0u16..=255).map(|m| if n < minbits(m) { "E".to_string() } else { n.to_string() }),
+        );
+    }
+    println!("end");
+}
+
 pub fn dump() {
     println!(
         "profile debug_assertions={} ",
         cfg!(debug_assertions) as u8
     );
+    println!("derive_internals {}", cfg!(feature = "derive-internals") as u8);
     codec_tables::<Dna>();
     codec_tables::<Iupac>();
     codec_tables::<Amino>();
